@@ -76,7 +76,14 @@ theorem source_shape :
     Generated.VM.casesPopFloat = ["float64", "int", "int64", "bool", "string", "datum.Datum"] ∧
     Generated.VM.casesPopString = ["string", "float64", "int", "int64", "bool", "datum.Datum"] ∧
     Generated.VM.settimeAccepts = "PopInt;" ∧
-    Generated.VM.opcodeNames.length = 61 := by decide
+    Generated.VM.opcodeNames.length = 61 ∧
+    -- the conversions between text and numbers that the model takes from an oracle are the
+    -- library calls of vm.go, with these arguments (decimal integers, 64-bit floats)
+    Generated.VM.libraryConversions =
+      ["strconv.ParseInt(n, 10, 64)", "strconv.ParseFloat(n, 64)", "strconv.FormatFloat(n, 'G', -1, 64)",
+       "strconv.Itoa(n)", "strconv.FormatInt(n, 10)", "strconv.FormatBool(n)", "strconv.ParseFloat(rxS, 64)",
+       "strconv.ParseFloat(rxS, 64)", "strconv.ParseFloat(lxS, 64)", "strconv.ParseInt(lxS, 10, 32)",
+       "strconv.ParseFloat(value, 64)", "strconv.ParseInt(str, base, 64)", "strconv.ParseFloat(str, 64)"] := by decide
 
 /-! ### non-vacuity: a concrete compiled program is accepted, and the hypotheses are satisfiable -/
 
